@@ -539,12 +539,14 @@ impl<'a> Repr<'a> {
                 let opt_len = addr.len() + 2;
                 opt.set_data_len(opt_len.div_ceil(8) as u8); // round to next multiple of 8.
                 opt.set_link_layer_addr(addr);
+                opt.data_mut()[addr.len()..].fill(0); // padding
             }
             Repr::TargetLinkLayerAddr(addr) => {
                 opt.set_option_type(Type::TargetLinkLayerAddr);
                 let opt_len = addr.len() + 2;
                 opt.set_data_len(opt_len.div_ceil(8) as u8); // round to next multiple of 8.
                 opt.set_link_layer_addr(addr);
+                opt.data_mut()[addr.len()..].fill(0); // padding
             }
             Repr::PrefixInformation(PrefixInformation {
                 prefix_len,
